@@ -19,6 +19,24 @@ CLAIMED = {
         "Trusted: the AST matcher; handlers do not mutate Params; ambiguous decompositions (spanning classes) are only checked for membership.",
         "DESIGN.md section 4 C02",
     ),
+    "C06": (
+        "runtime monitoring: reference-model monitor of the documented fallback order (direct, HEAD->GET, '/*', 405/Allow, 404, InterceptAll) run in lock-step with Match and ServeHTTP over generated tables x option sets",
+        "Every probe's outcome (route / allowed set via Match; status, Allow header, body, CTXAllowedMethods via ServeHTTP, default and custom fallback handlers) is compared with an executable statement of the resolution order over all 2^k option combinations sampled per table.",
+        "Trusted: AST matcher + the 30-line resolution model in harness/mon/c06.go; ranking among several direct qualifiers is C01's business (either documented or KF2 ranking accepted here).",
+        "DESIGN.md section 4 C06",
+    ),
+    "C07": (
+        "runtime monitoring: twin-execution monitor (same router built with and without the route cache) compared step by step over generated request histories; reference LRU predicts hits/evictions so that every history exercises them",
+        "For each request of each history the twins must agree on Match (route, params, allowed set) and ServeHTTP (handler trace with params seen by every handler, status, headers, body), for capacities 0,1,2,3,5,1000, with HEAD fallbacks, 405 probes, 404s and evictions.",
+        "Trusted: the uncached twin as specification; handlers read-only on Params; registration finished before the first request.",
+        "DESIGN.md section 4 C07",
+    ),
+    "C14": (
+        "runtime monitoring: lock-step reference-model monitor (list-based LRU) with invariant hook on the live cache after every step, small-scope exhaustive operation sequences + random ones; router-level trace check of cache keys after each dynamic request; porcupine linearizability check of concurrent histories",
+        "All operation sequences of length 5 (quick) / 6-7 (thorough) over 3 keys x capacities 0..4 plus random long sequences are compared step by step (return values, Len, recency order, stored values, structure); on caching routers every resolved dynamic request must leave exactly method+normalised path in front and its repeat must be served from the cache; concurrent Get/Set/Has/Delete/Len histories must be linearizable w.r.t. the sequential model.",
+        "Trusted: the 40-line reference LRU; verif hooks read the cache under its own lock. Has is only issued where recency cannot matter (sequential) or modelled as may-or-may-not refresh (concurrent).",
+        "DESIGN.md section 4 C14, section 5.3",
+    ),
 }
 
 PENDING_REASON = "monitor designed in DESIGN.md section 4 but not built yet in this round; not claimed until its check exists and is silent on the unchanged tree"
